@@ -321,6 +321,8 @@ class Verdict:
         if not self.violations:
             return 0
         seen = set()
+        # violations with a concrete failing input first (stable)
+        self.violations.sort(key=lambda x: not x[2])
         for what, replay, has_input in self.violations[:5]:
             body = json.dumps(replay, sort_keys=True, default=str)
             h = hashlib.sha1(body.encode()).hexdigest()[:12]
